@@ -34,7 +34,9 @@ func truncate(s string, n int) string {
 	return s
 }
 
-var c17Families = []string{"lr", "lr2", "expr", "expr4", "mutual", "mutual3", "hidden", "brackets", "seplist", "rightrec", "exprparen"}
+var c17Families = []string{"lr", "lr2", "expr", "expr4", "mutual", "mutual3", "hidden", "brackets", "seplist", "rightrec", "exprparen", "tower4", "tower5", "tower6"}
+
+var towerOps = "%^&|+*"
 
 func genC17(t *rapid.T) interface{} {
 	maxN := 100
@@ -46,6 +48,9 @@ func genC17(t *rapid.T) interface{} {
 		Variant: rapid.IntRange(0, 7).Draw(t, "variant"),
 		N:       rapid.IntRange(8, maxN).Draw(t, "n"),
 		Shape:   rapid.SampledFrom([]int{0, 1, 2, 3, 0, 1, 2, 3, 4, 5, 6, 7}).Draw(t, "shape"),
+	}
+	if strings.HasPrefix(c.Family, "tower") && c.N > maxN/2 {
+		c.N = maxN / 2
 	}
 	if c.Family == "hidden" && c.Shape%4%2 == 1 && c.N > maxN*2/5 {
 		c.N = maxN * 2 / 5 // cubic on this input shape: keep the doubled parse affordable
@@ -125,6 +130,14 @@ func c17Parser(family string, variant int, limit *int) parsley.Parser {
 			expr = memo(combinator.Any(combinator.SeqOf(&expr, r('+'), &term), combinator.SeqOf(&expr, r('-'), &term), &term))
 		}
 		return &expr
+	case "tower4", "tower5", "tower6": // L_i -> L_i op_i L_{i+1} | L_{i+1} ; atom -> INTEGER | ( L_0 )
+		levels := int(family[5] - '0')
+		ps := make([]parser.Func, levels+1)
+		ps[levels] = memo(first(terminal.Integer("i"), wrap(combinator.SeqOf(r('('), &ps[0], r(')')))))
+		for i := levels - 1; i >= 0; i-- {
+			ps[i] = memo(alt(combinator.SeqOf(&ps[i], r(rune(towerOps[i])), &ps[i+1]), &ps[i+1]))
+		}
+		return &ps[0]
 	case "mutual3": // A -> B x | a ; B -> C y | b ; C -> A z | c
 		var a, b, c3 parser.Func
 		a = memo(alt(combinator.SeqOf(&b, r('x')), r('a')))
@@ -196,6 +209,28 @@ func c17ValidInput(family string, n int, shape int) string {
 		return sb.String()
 	case "mutual3":
 		return "a" + strings.Repeat("zyx", n/3)
+	case "tower4", "tower5", "tower6":
+		levels := int(family[5] - '0')
+		switch shape % 4 {
+		case 0: // flat, lowest-precedence operator
+			return "1" + strings.Repeat(string(towerOps[0])+"1", n/2)
+		case 1: // nested parentheses only
+			return strings.Repeat("(", n/2) + "1" + strings.Repeat(")", n/2)
+		case 2: // flat, all operators in turn
+			var sb strings.Builder
+			sb.WriteString("1")
+			for i := 0; sb.Len() < n; i++ {
+				sb.WriteByte(towerOps[i%levels])
+				sb.WriteString("2")
+			}
+			return sb.String()
+		default: // nested groups joined by operators
+			s := "1"
+			for i := 0; len(s) < n; i++ {
+				s = "(" + s + string(towerOps[i%levels]) + "2)"
+			}
+			return s
+		}
 	case "expr", "expr4":
 		ops := [][]string{{"+", "*"}, {"-", "/"}, {"+", "+"}, {"*", "*"}}[shape%4]
 		var sb strings.Builder
@@ -354,7 +389,7 @@ func checkC17(ci interface{}, st *Stats) error {
 	default:
 		st.Class("ratio 9-16")
 	}
-	if c.N >= 32 && c.Family != "brackets" && c.Family != "seplist" && c.Family != "rightrec" {
+	if c.N >= 24 && c.Family != "brackets" && c.Family != "seplist" && c.Family != "rightrec" {
 		st.NonTrivial()
 	}
 	if c.Shape >= 4 {
